@@ -81,6 +81,29 @@ func (a *caiAn) havoc(n ast.Node, st *cState) {
 	})
 }
 
+// assignsNode: the statement assigns to a variable declared outside it whose
+// type is a syntax-tree node type.
+func (a *caiAn) assignsNode(n ast.Node) bool {
+	found := false
+	ast.Inspect(n, func(x ast.Node) bool {
+		as, ok := x.(*ast.AssignStmt)
+		if !ok || as.Tok != token.ASSIGN {
+			return !found
+		}
+		for _, l := range as.Lhs {
+			if id, ok := l.(*ast.Ident); ok {
+				if obj := a.info.Uses[id]; obj != nil && obj.Pos() < n.Pos() {
+					if nt := core.NamedOf(obj.Type()); nt != nil && nt.Obj().Pkg() != nil && nt.Obj().Pkg().Path() == pkgPath("ast") {
+						found = true
+					}
+				}
+			}
+		}
+		return !found
+	})
+	return found
+}
+
 func containsReturn(n ast.Node) bool {
 	f := false
 	ast.Inspect(n, func(x ast.Node) bool {
@@ -100,7 +123,9 @@ func (a *caiAn) exec(s ast.Stmt, st *cState) []*cState {
 			return []*cState{st}
 		}
 	case *ast.IfStmt:
-		if !a.emits(s) && !containsReturn(s) {
+		// (an if that chooses which syntax-tree node a variable holds is
+		// interpreted, both ways: what is compiled later depends on the node)
+		if !a.emits(s) && !containsReturn(s) && !a.assignsNode(s) {
 			a.havoc(s, st)
 			return []*cState{st}
 		}
